@@ -11,7 +11,7 @@ RULE = ("src/main.cpp is compiled into the harness and the real `eph fetch <uri>
         "SHA-256 agrees with the payload's in its XOR fold, byte sum, first two, last two, or first and last byte; STATUS:OK "
         "without payload; STATUS:ERROR; "
         "closed port), and the local daemon scripted the same way; in a fifth of the cases the manifest has expired on the CLI's "
-        "clock. Read back: exit code, the output file, which endpoint the "
+        "clock, in a seventh its content hash is 32 zero bytes (the hash is chosen by whoever hands out the URI; nothing matches it). Read back: exit code, the output file, which endpoint the "
         "CLI says served, how many control requests each endpoint received. Oracle (independent of the model: hashlib): "
         "an output file exists only with exit code 0 and its SHA-256 is the manifest's (= the payload's); the endpoint that "
         "served answered with the genuine payload (or 'written on the daemon host', then no file); no endpoint is asked "
@@ -85,11 +85,21 @@ def generate(rng, tier):
             else:
                 ints += [1, path, 1, 2] + lp(b) + [rng.choice([0, 1])]
             cases.append({"ints": ints, "tag": f"nearmiss-{kind}-path{path}"})
+    for path in (0, 1, 2, 3):
+        P = bytes(rng.randrange(256) for _ in range(rng.choice([1, 5, 64, 200])))
+        ints = [0, 2] + lp(P)
+        if path == 3:
+            ints += [0, 2] + lp(P)
+        else:
+            ints += [1, path, 1, 2] + lp(P) + [rng.choice([0, 1])]
+        cases.append({"ints": ints, "tag": f"zerohash-path{path}"})
     for ci in range(n - len(cases)):
         ln = rng.choice([1, 2, 5, 63, 64, 65, 200, rng.randrange(1, 300)])
         P = bytes(rng.randrange(256) for _ in range(ln))
         mode = rng.choice([0, 0, 0, 1, 2, 3])
         expired = 1 if rng.random() < 0.2 else 0
+        if rng.random() < 0.15:
+            expired += 2          # the manifest's content hash is 32 zero bytes: no endpoint's bytes match it
         nh = rng.choice([0, 1, 1, 2, 2, 3, 4, 5])
         ints = [mode, expired] + lp(P) + [nh]
         tricky = rng.random() < 0.25          # this case's wrong payloads are near misses of the hash comparison
@@ -109,7 +119,7 @@ def generate(rng, tier):
         ints += [lcode]
         if lcode == 2:
             ints += lp(P if rng.random() < 0.5 else (near_miss(rng, P) if tricky else variant(rng, P, True)))
-        cases.append({"ints": ints, "tag": f"mode{mode}" + ("-expired" if expired else "") + ("-nearmiss" if tricky else "")})
+        cases.append({"ints": ints, "tag": f"mode{mode}" + ("-expired" if expired & 1 else "") + ("-zerohash" if expired & 2 else "") + ("-nearmiss" if tricky else "")})
     return cases
 
 
@@ -148,7 +158,8 @@ def judge(case, impl, model):
     lcount = impl[q]
     if rc not in (0, 1):
         return {"fail": f"C30|exit-code|{rc}"}
-    want = hashlib.sha256(P).digest()
+    zero_hash = case["ints"][1] >= 2
+    want = bytes(32) if zero_hash else hashlib.sha256(P).digest()
     asked_bad = any(c > 0 and h[2] == 2 and h[3] != P for c, h in zip(counts, hints)) or (lcount > 0 and local[0] == 2 and local[1] != P) \
         or any(h[0] == 0 and h[2] == 2 and h[3] != P for h in hints if mode != 3)
     if got is not None:
@@ -165,6 +176,8 @@ def judge(case, impl, model):
         else:
             return {"fail": "C30|success-without-a-serving-endpoint"}
         if r[0] == 2:
+            if zero_hash:
+                return {"fail": "C30|payload-accepted-for-a-manifest-whose-hash-it-does-not-match", "nontrivial": True}
             if r[1] != P:
                 return {"fail": "C30|an-endpoint-returning-other-bytes-served", "nontrivial": True}
             if got != P:
